@@ -212,6 +212,10 @@ SPECS['C16'] = {
              bounds=('origin<2**30, copy<=255, name 1..255 chars, payload 0..40000 bytes; bytes/bytearray/str',
                      'payload up to 2**30 bytes'), entry=['NoFormatFrameData._make_body_bytes']),
         dict(fn=H + 'c16.reach_noformat_body', kind='reach', timeout=(60, 60), validate=R + 'noformat:replay_noformat'),
+        dict(fn=H + 'c16.ob_noformat_rename', kind='universal', timeout=(120, 300), replay=R + 'noformat:replay_noformat_rename',
+             bounds='serialised once, then the object renamed (names 1..255) / moved to another origin (<2**30) / the record re-pointed; payload 0..40000 bytes',
+             entry=['NoFormatFrameData._make_body_bytes', 'EFLRItem.obname', 'EFLRItem.__setattr__']),
+        dict(fn=H + 'c16.reach_noformat_rename', kind='reach', timeout=(60, 60), validate=R + 'noformat:replay_noformat_rename'),
         dict(fn=H + 'c16.wit_noformat_short', kind='witness', timeout=(60, 60), validate=R + 'noformat:replay_noformat'),
         dict(fn=H + 'c16.ob_noformat_text', kind='universal', timeout=(120, 300), replay=R + 'noformat:replay_noformat',
              bounds='symbolic ASCII text, len<=3', entry=['NoFormatFrameData._make_body_bytes']),
